@@ -13,6 +13,8 @@ from jasm.jasm_regex.yaml2regex import Yaml2Regex  # noqa: E402
 from jasm.jasm_regex.macro_expander.macro_expander import MacroExpander  # noqa: E402
 
 logging.getLogger("jasm.logging_config").setLevel(logging.CRITICAL)
+logging.getLogger("jasm.logging_config").addHandler(logging.NullHandler())
+logging.getLogger("jasm.logging_config").propagate = False
 
 
 class Scratch:
@@ -33,7 +35,31 @@ class Scratch:
         shutil.rmtree(self.dir, ignore_errors=True)
 
 
+DUMPS = [0]
+
+
+def _share(node, memo):
+    """the same document with structurally equal mappings/sequences made ONE object, so that PyYAML writes the second and
+    later occurrences as aliases (`&id001` / `*id001`) and the loader hands the code one shared dict/list for them"""
+    if isinstance(node, dict):
+        out = {k: _share(v, memo) for k, v in node.items()}
+    elif isinstance(node, list):
+        out = [_share(v, memo) for v in node]
+    else:
+        return node
+    key = repr(out)
+    if key in memo:
+        return memo[key]
+    memo[key] = out
+    return out
+
+
 def dump_yaml(doc):
+    """YAML text of a document; every third document is written with anchors and aliases for its repeated sub-trees
+    (the same YAML document: what it means must not depend on that)"""
+    DUMPS[0] += 1
+    if HISTORY["every"] and DUMPS[0] % 3 == 0:
+        doc = _share(doc, {})
     return yaml.safe_dump(doc, sort_keys=False, default_flow_style=False, width=10000)
 
 
@@ -142,12 +168,23 @@ def run_op(scratch, doc, text, mode="first", addr_only=False, ret="bool", macro_
             _prelude(scratch)
         repeat = HISTORY["count"] % HISTORY["every"] == 1 and binary_path is None
 
+    # the log level is not an input: every fifth measured operation runs with the package's logger at DEBUG
+    debug = bool(HISTORY["every"]) and HISTORY["count"] % 5 == 2
+    jlog = logging.getLogger("jasm.logging_config")
+
     def go():
         cfg = MatchConfig(pattern_pathstr=path, input_file=inp, input_file_type=kind,
                           return_only_address=addr_only, return_mode=RET[ret], matching_mode=MODE[mode],
                           macros=mpaths or None)
-        m = MasterOfPuppets(cfg)
-        r1 = m.perform_matching()
+        if debug:
+            HISTORY["debug_level_operations"] = HISTORY.get("debug_level_operations", 0) + 1
+            jlog.setLevel(logging.DEBUG)
+        try:
+            m = MasterOfPuppets(cfg)
+            r1 = m.perform_matching()
+        finally:
+            if debug:
+                jlog.setLevel(logging.CRITICAL)
         if repeat:
             r1 = copy.deepcopy(r1)
             HISTORY["repeats"] += 1
